@@ -1,2 +1,11 @@
 import AgdbStorage.Props.C04
 open AgdbStorage
+#print axioms C04_refines
+#print axioms C04_read_back
+#print axioms C04_removed_unreadable
+#print axioms C04_frame
+#print axioms C04_optimize
+#print axioms C04_reopen
+#print axioms C04_invariant
+#print axioms C04_calls_wellformed
+#print axioms C04_reopen_unbounded_counterexample
